@@ -133,6 +133,13 @@ structure PState where
   glossary : List (Str × List (Str × Option (List Tok))) := []
   fs : FS := []
   readMacros : Bool := true
+  /-- ghost (no effect on behaviour): number of enclosing `parser_work` frames; the root
+      document is parsed at `nest = 1`, everything else (module definitions, `--defs`,
+      `\LTinput` files) at `nest ≥ 2` -/
+  nest : Nat := 1
+  /-- ghost: a text flow was extracted while parsing something other than the root document
+      and has not been discarded since -/
+  foreign : Bool := false
 deriving Repr, Inhabited
 
 /-- state + outcome monad -/
